@@ -66,4 +66,65 @@ theorem pull_encHead (m n : Nat) (hm : m < 7) (hn : n < 2 ^ 64) (rest : Bytes) :
         · exact pull_of_arg _ m 27 hm (by simp [UInt8.toNat_ofNat'] <;> omega) (by simp [UInt8.toNat_ofNat'] <;> omega) _ _ n 8
             (pullArg_wide 27 8 n (by simp) (by omega) rest)
 
+
+/-! ### minimal big-endian representations (ciborium's bignum conversions) -/
+
+theorem minBytesF_length (f : Nat) : ∀ (n k : Nat), n < 256 ^ k → (minBytesF f n).length ≤ k := by
+  induction f with
+  | zero => intro n k _; simp [minBytesF]
+  | succ f ih =>
+    intro n k h
+    simp only [minBytesF]
+    split
+    · simp
+    · next hn =>
+      cases k with
+      | zero => simp at h; omega
+      | succ k =>
+        have : n / 256 < 256 ^ k := by
+          rw [Nat.div_lt_iff_lt_mul (by decide)]; rw [Nat.pow_succ] at h; exact h
+        have := ih (n / 256) k this
+        simp only [List.length_append, List.length_singleton]; omega
+
+theorem foldl_be_lt (bs : Bytes) : ∀ a : Nat, bs.foldl (fun acc b => acc * 256 + b.toNat) a < (a + 1) * 256 ^ bs.length := by
+  induction bs with
+  | nil => intro a; simp
+  | cons b bs ih =>
+    intro a
+    simp only [List.foldl_cons, List.length_cons]
+    have h1 := ih (a * 256 + b.toNat)
+    have hb := b.toNat_lt
+    have h2 : (a * 256 + b.toNat + 1) * 256 ^ bs.length ≤ ((a + 1) * 256) * 256 ^ bs.length :=
+      Nat.mul_le_mul_right _ (by omega)
+    rw [Nat.pow_succ, Nat.mul_comm (256 ^ bs.length) 256, ← Nat.mul_assoc]
+    omega
+
+theorem beVal_lt (bs : Bytes) : beVal bs < 256 ^ bs.length := by
+  have := foldl_be_lt bs 0
+  simpa [beVal] using this
+
+theorem minBytes_beVal_length (bs : Bytes) : (minBytes (beVal bs)).length ≤ bs.length :=
+  minBytesF_length 16 _ _ (beVal_lt bs)
+
+
+theorem beVal_minBytesF (f : Nat) : ∀ n, n < 256 ^ f → beVal (minBytesF f n) = n := by
+  induction f with
+  | zero => intro n h; simp at h; subst h; simp [minBytesF, beVal]
+  | succ f ih =>
+    intro n h
+    simp only [minBytesF]
+    split
+    · next h0 => subst h0; simp [beVal]
+    · rw [beVal_append_single, ih (n / 256) (by rw [Nat.div_lt_iff_lt_mul (by decide)]; rw [Nat.pow_succ] at h; exact h)]
+      simp only [UInt8.toNat_ofNat']
+      omega
+
+theorem beVal_minBytes (n : Nat) (h : n < 2 ^ 128) : beVal (minBytes n) = n :=
+  beVal_minBytesF 16 n (by have : (256 : Nat) ^ 16 = 2 ^ 128 := by decide
+                           omega)
+
+theorem minBytes_length_le (n : Nat) (h : n < 2 ^ 128) : (minBytes n).length ≤ 16 :=
+  minBytesF_length 16 n 16 (by have : (256 : Nat) ^ 16 = 2 ^ 128 := by decide
+                               omega)
+
 end Coset.Cbor
